@@ -98,7 +98,7 @@ def one(ctx, doc, g, r):
 
 
 def run(ctx):
-    n = 200 if ctx.tier == "quick" else 3000
+    n = 500 if ctx.tier == "quick" else 6000
     done = 0
     while done < n and ctx.time_left() > 8:
         batch = gen_valid_graphs(ctx, min(200, n - done))
